@@ -64,8 +64,13 @@ def operator_case(rep, rng, mesh, mi, small, pattern=None):
             if ch == "0":
                 seq.append(np.zeros((E, 2)))
             else:
+                if ch.upper() not in pots:
+                    pots[ch.upper()] = np.array([[rng.gauss(0, 1), rng.gauss(0, 1)] for _ in range(E)])
                 if ch not in pots:
-                    pots[ch] = np.array([[rng.gauss(0, 1), rng.gauss(0, 1)] for _ in range(E)])
+                    # a lower-case letter: the upper-case potential with only a few edges changed
+                    pots[ch] = pots[ch.upper()].copy()
+                    for k_ in rng.sample(range(E), min(3, E)):
+                        pots[ch][k_] = [rng.gauss(0, 1), rng.gauss(0, 1)]
                 seq.append(pots[ch].copy())
         L = len(seq)
     for _ in range(L if pattern is None else 0):
@@ -189,7 +194,7 @@ def run(rep: common.Report, tier: str, seed: int, replay=None) -> int:
         t, ops, case = operator_case(rep, rng, mesh, mi, small=True)
         texts.append(t)
         info.append((ops, case))
-    patterns = ["A0", "A00", "0A", "00A", "AA", "ABA", "A0A", "0A0", "AB0", "AAB", "0", "A", "A0B0", "ABAB0A"]
+    patterns = ["A0", "A00", "0A", "00A", "AA", "ABA", "A0A", "0A0", "AB0", "AAB", "0", "A", "A0B0", "ABAB0A", "Aa", "AaA", "Aab", "0a0A", "aAa"]
     for pi, pat in enumerate(patterns):
         mesh = meshes.delaunay_mesh(rng, 30, "random")
         operator_case(rep, rng, mesh, 1000 + pi, small=False, pattern=pat)
